@@ -604,6 +604,7 @@ func (r *ChunkReader) resolveSeekPosition() error {
 	// seekPosition.
 	cBias := int64(0)
 	dBias := int64(0)
+	cOffset := r.rootNodeCOffset
 	for {
 		i := r.currNode.findChunkContaining(r.seekPosition, dBias)
 		if r.currNode.isLeaf(i) {
@@ -624,12 +625,22 @@ func (r *ChunkReader) resolveSeekPosition() error {
 		}
 		childDBias := r.currNode.dOff(i, dBias)
 		childDSize := r.currNode.dSize(i)
+		parentDPtrMax := r.currNode.dPtrMax()
 
 		if err := r.loadAndValidate(childCOffset,
 			parentCodec, parentCodecHasMixBit, parentVersion, parentCOffMax,
 			childCBias, childDSize); err != nil {
 			return err
 		}
+
+		// Rule out infinite loops, as per the RAC spec's "Search Within a
+		// Branch Node" section: the child must come before its parent (in
+		// CSpace) or be smaller than its parent (in DSpace).
+		if (childCOffset >= cOffset) && (r.currNode.dPtrMax() >= parentDPtrMax) {
+			r.err = errInvalidIndexNode
+			return r.err
+		}
+		cOffset = childCOffset
 
 		cBias = childCBias
 		dBias = childDBias
